@@ -107,6 +107,24 @@ DESC = {
     "C15-F": ("CTAPHID `Message::init` pre-sizes the payload buffer from the declared length: 64-byte packets on distinct channels each pin 64 KiB", "sequences of 80-2500 unfinished initialisation packets on distinct channels added"),
     "C19-E": ("`save_credential` only when the credential is discoverable (same effect as C07-D, found again independently)", ""),
     "C19-F": ("counter advanced only when the UP flag is set: silent assertions reuse the previous counter", "silent assertions (no presence / verification asked or reported) added to the scheduler configurations"),
+    "C01-E": ("RP-ID validity check (with its localhost early return) moved before the suffix comparison: with insecure localhost allowed, RP ID `localhost` is accepted from any origin", ""),
+    "C01-F": ("scheme check inverted from 'must be https' to 'must not be http': `ws://`, `ftp://`, `app://` origins accepted", ""),
+    "C06-E": ("key and credential id cut from one 64-byte random buffer: with 64-byte ids the id starts with the private scalar", ""),
+    "C06-F": ("U2F registration fills the attestation-certificate slot with `to_sec1_der()` of the private key", ""),
+    "C08-E": ("`log::debug!(.., counter + 1)` before the saturating increment: with a logger installed and overflow checks on, an assertion at u32::MAX panics", "a sink logger is installed in every run (`logsink.rs`), so log arguments are evaluated"),
+    "C08-F": ("counter-less credentials start counting when the authenticator has `make_credentials_with_signature_counter` on at assertion time", ""),
+    "C10-E": ("implicit `*` rule takes its dot from the walk cursor: `example.za` (parent-only TLD node without wildcard) is its own suffix", ""),
+    "C10-F": ("`domain.chars().nth(i)` for a byte offset in `effective_tld_plus_one`: names with multi-byte labels left of the suffix get `Err(InvalidPublicSuffix)`", "names with non-ASCII labels that no IDN rule's Unicode presentation matches are compared with the reference too; Unicode labels left of every 8th rule added"),
+    "C11-E": ("`Arc<RwLock<S>>::get_info` returns a hard-coded `ForcedDiscoverable` instead of forwarding", "CTAP-level cells run over five store forms (store, Arc<Mutex>, Arc<RwLock>, Mutex, RwLock)"),
+    "C11-F": ("'defensive' user-handle length filter with `<` for `<=`: a 64-byte user id is silently not stored", "user id lengths 1, 8, 64 added as a dimension of the client-level product"),
+    "C12-E": ("extension setters clear the section on their nothing-to-add path but leave ED set", "a second setter call with None / empty outputs added to a quarter of the values"),
+    "C12-F": ("`from_slice` keeps reserved flag bits (`from_bits_retain`) instead of rejecting them", ""),
+    "C16-E": ("continuation packets numbered from `Message.sequence`: a received multi-packet message, sent again, starts numbering at k", "every delivered message is sent again and compared with the packets it arrived in"),
+    "C16-F": ("receiver rejects initialisation packets announcing more than 57 + 127 x 59 bytes (one continuation packet too few)", ""),
+    "C17-E": ("request parser bounds the data length by 2 x 32 + 255 (length byte forgotten): 255-byte key handles rejected", ""),
+    "C17-F": ("`RegisterResponse::encode` emits the signature before the attestation certificate", "register responses with arbitrary field values (certificates of 0-1200 bytes) encoded and compared with the own concatenation"),
+    "C18-E": ("trait route keeps only extension inputs `get_info` lists: the `hmac-secret` flag is dropped, store / `enabled` differ", "plain hmac-secret flag (absent / true / false) added to makeCredential requests"),
+    "C18-F": ("trait route computes a log tag with `split_at(4)` of the client data hash: hashes shorter than 4 bytes panic", "client-data hashes of 0, 1, 3, 4, 20, 48 bytes added"),
 }
 
 
